@@ -489,6 +489,11 @@ def b_from_bytes(ex, s, args, kw, node):
         # two's complement big-endian: never raises; value uninterpreted except for the empty string (== 0)
         f = z3.Function('sunbe', BytesS, IntS)
         s.assume(z3.Implies(z3.Length(b.z) == 0, f(b.z) == 0))
+        if z3.is_app(b.z) and b.z.decl().kind() == z3.Z3_OP_UNINTERPRETED and b.z.decl().name() == 'sbe':
+            # inverse pair: from_bytes(v.to_bytes(n, 'big', signed=True), 'big', signed=True) == v when v fits n bytes
+            nn, vv = b.z.arg(0), b.z.arg(1)
+            s.assume(z3.Implies(z3.If(nn == 0, vv == 0, z3.And(nn > 0, -pow2(8 * nn - 1) <= vv, vv < pow2(8 * nn - 1))),
+                                f(b.z) == vv))
         return [(s, VInt(f(b.z)))]
     from . import bstruct
     w = bstruct.be_width(b.z)
@@ -701,7 +706,58 @@ def by_join(ex, s, recv, r, args, kw, node):
     raise Unsupported(f'join over {it!r}')
 
 
+pow2 = z3.Function('pow2', IntS, IntS)             # pow2(k) == 2**k for k >= 0 (spec function, instances per use)
+bitlen = z3.Function('bitlen', IntS, IntS)         # int.bit_length
+sbe = z3.Function('sbe', IntS, IntS, BytesS)       # sbe(n, v) == v.to_bytes(n, 'big', signed=True)
+sunbe = z3.Function('sunbe', BytesS, IntS)         # int.from_bytes(b, 'big', signed=True)
+
+
+def pow2_facts(s, k):
+    """definitional instances of pow2 at k (and its neighbours): positivity, doubling, base"""
+    s.assume(z3.Implies(k >= 0, pow2(k) >= 1))
+    s.assume(z3.Implies(k >= 1, pow2(k) == 2 * pow2(k - 1)))
+    s.assume(z3.Implies(k >= 0, pow2(k + 1) == 2 * pow2(k)))
+    s.assume(pow2(z3.IntVal(0)) == 1)
+
+
+def by_bit_length(ex, s, recv, r, args, kw, node):
+    """int.bit_length(): 0 for 0, else the n with 2**(n-1) <= abs(v) < 2**n (Python docs)"""
+    v = r.z
+    n = bitlen(v)
+    s.assume(z3.And(n >= 0, (n == 0) == (v == 0)))
+    a = z3.If(v < 0, -v, v)
+    s.assume(z3.Implies(v != 0, z3.And(pow2(n - 1) <= a, a < pow2(n))))
+    pow2_facts(s, n)
+    pow2_facts(s, n - 1)
+    return [(s, VInt(n))]
+
+
+def to_bytes_signed(ex, s, r, n, node):
+    """v.to_bytes(n, 'big', signed=True): OverflowError unless -2**(8n-1) <= v < 2**(8n-1) (n == 0: only v == 0);
+    ValueError for negative n; the result has n bytes and int.from_bytes(.., signed=True) inverts it"""
+    v = r.z
+    out = []
+    for s1, neg in ex.branch(s, n < 0, node):
+        if neg:
+            out.append(_raise(s1, 'ValueError'))
+            continue
+        pow2_facts(s1, 8 * n - 1)
+        fits = z3.If(n == 0, v == 0, z3.And(-pow2(8 * n - 1) <= v, v < pow2(8 * n - 1)))
+        for s2, ok in ex.branch(s1, fits, node):
+            if not ok:
+                out.append(_raise(s2, 'OverflowError'))
+                continue
+            t = sbe(n, v)
+            s2.assume(z3.Length(t) == n)
+            s2.assume(sunbe(t) == v)
+            out.append((s2, VBytes(t)))
+    return out
+
+
 def by_to_bytes(ex, s, recv, r, args, kw, node):
+    if set(kw) == {'signed'} and concrete_bool(ex.truthy(s, kw['signed'])) is True and len(args) > 1 \
+            and concrete_str(args[1]) == 'big' and isinstance(args[0], VInt):
+        return to_bytes_signed(ex, s, r, args[0].z, node)
     w = concrete_int(args[0])
     order = concrete_str(args[1]) if len(args) > 1 else None
     if w is None or order != 'big' or kw:
@@ -806,7 +862,7 @@ BYTES_METHODS = {'split': by_split, 'find': by_find, 'startswith': by_startswith
 STR_METHODS = {'split': by_split, 'startswith': by_startswith, 'endswith': by_endswith, 'encode': st_encode, 'join': by_join,
                'find': by_find, 'strip': by_strip_like('strip'), 'lower': by_strip_like('lower'),
                'lstrip': by_strip_like('lstrip'), 'rstrip': by_strip_like('rstrip')}
-INT_METHODS = {'to_bytes': by_to_bytes}
+INT_METHODS = {'to_bytes': by_to_bytes, 'bit_length': by_bit_length}
 
 
 def by_rstrip(ex, s, recv, r, args, kw, node):
